@@ -32,8 +32,22 @@ class C03(Check):
         exp = symx.explore(classify_db.harness, {'G': G, 'step_s': 1800, 'props': ('C03',), 'seed': self.seed, 'replay_every': 13},
                            name='classify_intervals[G=%d]' % G)
         self.absorb(exp, need_paths=2)
+        # A gap of the level record that swallows no grid instant (logger faster than the grid, a few
+        # readings missing): the label changes between two neighbouring instants that both carry a level.
+        # "Neither extends across a gap" must hold there too (seeded change C03-4).
+        breaks = [1, 2] if self.tier == 'quick' else list(range(G))
+        self.bounds['DB level']['stretch boundaries without a NULL instant'] = 'one, after instant %s' % breaks
+        for b in breaks:
+            exp = symx.explore(classify_db.harness, {'G': G, 'step_s': 1800, 'props': ('C03',), 'seed': self.seed,
+                                                     'replay_every': 13, 'brk': (b,)},
+                               name='classify_intervals_break%d[G=%d]' % (b, G))
+            self.absorb(exp, need_paths=2)
 
     def replay(self, failure):
+        if failure['harness'].startswith('classify_intervals_break'):
+            b = int(failure['harness'].split('[')[0][len('classify_intervals_break'):])
+            G = int(failure['harness'].split('=')[1].rstrip(']'))
+            return classify_db.replay_failure({'G': G, 'step_s': 1800, 'brk': (b,)}, failure)
         if failure['harness'].startswith('classify_intervals'):
             G = int(failure['harness'].split('=')[1].rstrip(']'))
             return classify_db.replay_failure({'G': G, 'step_s': 1800}, failure)
